@@ -446,8 +446,13 @@ def closest_point_triangle(a, b, c):
         n = np.cross(ab, ac)
     n_len_sq = np.dot(n, n)
 
-    # Check degenerate
-    if n_len_sq < EPSILON_SQR:
+    # Check degenerate: the altitude of the triangle is below sqrt(EPSILON)
+    # times its longest edge (this includes duplicate and almost duplicate
+    # points). The region tests below are decided by rounding noise for such
+    # slivers, e.g. when GJK adds a support point that differs from a previous
+    # one only in the last bits.
+    max_edge_len_sq = max(ab.dot(ab), max(ac.dot(ac), bc.dot(bc)))
+    if n_len_sq <= EPSILON * max_edge_len_sq * max_edge_len_sq:
         # Degenerate, fallback to edges
 
         # Edge AB
